@@ -4,7 +4,7 @@ tier=$1; shift
 cd "$(dirname "$0")/.."
 for id in "$@"; do
   t0=$(date +%s)
-  python3 symx/check.py $id --tier $tier > /tmp/run_${tier}_$id.log 2>&1
+  SYMX_EVIDENCE_DIR=${SYMX_EVIDENCE_DIR:-/verif/evidence} python3 symx/check.py $id --tier $tier > /tmp/run_${tier}_$id.log 2>&1
   rc=$?
   echo "$id rc=$rc $(( $(date +%s) - t0 ))s :: $(tail -1 /tmp/run_${tier}_$id.log | cut -c1-200)"
   grep -h "^VIOLATION\|^INCONCLUSIVE\|^KNOWN-FINDING" /tmp/run_${tier}_$id.log | cut -c1-300
